@@ -67,6 +67,15 @@ def ev_pwt(xs, ys, x):
     return -1.0
 
 
+def ieee_div(a, b):
+    try:
+        return a / b
+    except ZeroDivisionError:
+        if a != a or a == 0:
+            return NAN
+        return math.copysign(INF, a) * math.copysign(1.0, b)
+
+
 def ev_pow(k, m, c, x):
     try:
         p = math.pow(x, m)
@@ -81,7 +90,7 @@ class Fn:
     def __init__(self, kind, **kw):
         self.kind = kind
         self.__dict__.update(kw)
-        self.exact = kind != 'POW'
+        self.exact = kind != 'POW' and (kind != 'DIV' or (self.num.exact and self.den.exact))
 
     def __call__(self, x):
         if self.kind == 'POLY':
@@ -92,6 +101,8 @@ class Fn:
             return ev_shpow(self.k, self.r, self.p, x)
         if self.kind == 'PWT':
             return ev_pwt(self.xs, self.ys, x)
+        if self.kind == 'DIV':
+            return ieee_div(self.num(x), self.den(x))
         return ev_pow(self.k, self.m, self.c, x)
 
     def spec(self):
@@ -101,15 +112,21 @@ class Fn:
             return '%s %d %s %s' % (self.kind, len(self.xs), ' '.join(f2h(v) for v in self.xs), ' '.join(f2h(v) for v in self.ys))
         if self.kind == 'SHPOW':
             return 'SHPOW %s %s %d' % (f2h(self.k), f2h(self.r), self.p)
+        if self.kind == 'DIV':
+            return 'DIV %s %s' % (self.num.spec(), self.den.spec())
         return 'POW %s %s %s' % (f2h(self.k), f2h(self.m), f2h(self.c))
 
     def describe(self):
         d = dict(self.__dict__)
         d.pop('exact', None)
+        if self.kind == 'DIV':
+            d['num'], d['den'] = self.num.describe(), self.den.describe()
         return d
 
     def lipschitz(self, a, b):
         """an upper bound of |f'| on [a,b] (None when not available)"""
+        if self.kind == 'DIV':
+            return None
         if self.kind == 'POLY':
             m = max(abs(a), abs(b))
             return sum(k * abs(c) * m ** (k - 1) for k, c in enumerate(self.cs) if k >= 1)
@@ -131,6 +148,8 @@ class Fn:
         return None if L is None else L * w              # min <= f hi - f lo <= L w
 
     def scale(self, a, b):
+        if self.kind == 'DIV':
+            return 1.0
         if self.kind == 'POLY':
             m = max(abs(a), abs(b), 1.0)
             return sum(abs(c) * m ** k for k, c in enumerate(self.cs)) or 1.0
@@ -203,7 +222,46 @@ def gen_root_cases(rng, count):
     add(Fn('POLY', cs=[-3.0, 4.0, 0.5]), None, 0.5, 0.0, 2.0, 1e-6, 1e-15, -3, True, 'negative-limit')
 
     while len(cases) < count:
-        fam = rng.choice(['poly-mono', 'poly-mono', 'poly-any', 'pwl-mono', 'pwl-mono', 'pwl-any', 'pow', 'poly-newton', 'flat-root', 'pwt'])
+        fam = rng.choice(['poly-mono', 'poly-mono', 'poly-any', 'pwl-mono', 'pwl-mono', 'pwl-any', 'pow', 'poly-newton', 'flat-root', 'pwt', 'edge-derivative'])
+        if fam == 'edge-derivative':
+            # derivative callbacks that return 0, +-Inf or NaN at the bracket ends / the initial guess / the midpoint (an analytic
+            # power-law slope p*x^p/x at 0, 1/(x-a), 0/0, Inf-Inf), brackets starting at 0, guesses on either end
+            a = rng.choice([0.0, 0.0, dyadic(rng, -2, 2, 3)])
+            b = a + dyadic(rng, 0.5, 8, 3)
+            x0 = rng.choice([a, a, b, (a + b) * 0.5, a + (b - a) * dyadic(rng, 0, 1, 3)])
+            z = rng.choice([x0, x0, a, b, (a + b) * 0.5])          # where the derivative misbehaves
+            pw = rng.choice([1, 2, 3])
+            base = rng.choice(['poly', 'shpow', 'pwl-deadband'])
+            if base == 'poly':
+                cs = [0.0, dyadic(rng, 0.25, 4, 3), dyadic(rng, 0, 2, 3)]
+                if a < 0:
+                    cs[2] = 0.0
+                root = a + (b - a) * rng.choice([rng.random(), dyadic(rng, 0, 1, 3), 0.0])
+                cs[0] = -ev_poly(cs, root)
+                f, mono = Fn('POLY', cs=cs), True
+            elif base == 'shpow':
+                f, mono = Fn('SHPOW', k=rng.choice([1.0, 2.0]), r=a + (b - a) * rng.choice([0.0, dyadic(rng, 0, 1, 3)]), p=rng.choice([1, 3])), True
+            else:
+                # rising, then exactly zero up to the end of the bracket (a dead band)
+                m1 = a + (b - a) * dyadic(rng, 0.25, 0.75, 3)
+                f, mono = Fn('PWL', xs=[a, m1, b], ys=[-dyadic(rng, 0.5, 4, 3), 0.0, 0.0]), True
+            shape = rng.choice(['0/0', '0/0', 'c/0', '0', 'inf-inf', 'nan-const'])
+            one_over = Fn('DIV', num=Fn('POLY', cs=[1.0]), den=Fn('SHPOW', k=1.0, r=z, p=1))             # 1/(x-z)
+            if shape == '0/0':
+                d = Fn('DIV', num=Fn('SHPOW', k=float(pw + 1), r=z, p=pw + 1), den=Fn('SHPOW', k=1.0, r=z, p=1))   # (p+1)(x-z)^(p+1)/(x-z)
+            elif shape == 'c/0':
+                d = one_over
+            elif shape == '0':
+                d = Fn('SHPOW', k=dyadic(rng, 0.5, 2, 2), r=z, p=pw)
+            elif shape == 'inf-inf':
+                d = Fn('DIV', num=Fn('DIV', num=one_over, den=one_over), den=Fn('POLY', cs=[dyadic(rng, 0.5, 2, 2)]))   # (Inf/Inf)/c at z, 1/c elsewhere
+            else:
+                d = Fn('DIV', num=Fn('POLY', cs=[0.0]), den=Fn('POLY', cs=[0.0]))                        # NaN everywhere
+            tol = rng.choice([1e-3, 1e-6, 1e-9, 1e-2])
+            conv = rng.choice([1e-15, 1e-9, 0.0])
+            n = rng.choice([1, 2, 3, 5, 10, 20])
+            add(f, d, x0, a, b, tol, conv, n, mono, fam)
+            continue
         if fam == 'pwt':
             # the residual is a table lookup through the library's own Piecewise (monotone table, bracket inside the table)
             k = rng.randint(2, 8)
@@ -670,6 +728,153 @@ def nest_oracle(levels, acts):
     return fails
 
 
+def gen_seq_cases(rng, rcases, pcases, rlines, plines, quick):
+    """history independence: single-call cases called one after the other in ONE process in designed orders; the answer to a
+    given call must be bit-identical wherever it occurs (and equal to the pure model's).
+    -> list of dict(items=[('ROOT'|'PIECEWISE', index into rcases/pcases)], order=[item positions], ctx=[context label per position])"""
+    out = []
+    by_table = {}
+    for j, cs in enumerate(pcases):
+        if 'sweep' in cs:
+            by_table.setdefault(cs['sweep'], []).append(j)
+    tables = sorted(by_table)
+    rnd_pw = [j for j, cs in enumerate(pcases) if 'sweep' not in cs and len(cs['xs']) >= 2]
+    for ti in (tables if quick else tables[:60]):
+        own = by_table[ti]
+        others = [j for t2 in tables if t2 != ti for j in by_table[t2] if pcases[j]['q'] == pcases[j]['q']]
+        other = rng.sample(others, min(6, len(others))) if others else rng.sample(rnd_pw, 6)
+        items = own + other
+        pos = {j: k for k, j in enumerate(items)}
+        xs = pcases[own[0]]['xs']
+        val = lambda j: pcases[j]['q']
+        interior = sorted((j for j in own if xs[0] <= val(j) <= xs[-1] and val(j) not in xs), key=val)      # strictly inside a segment
+        errs = [j for j in own if not (xs[0] <= val(j) <= xs[-1])]                                       # outside / NaN
+        order, ctx = [], []
+
+        def call(j, label):
+            order.append(pos[j])
+            ctx.append(label)
+        for j in own:                                           # every query of the table right after ...
+            if val(j) != val(j):
+                continue
+            above = next((i for i in interior if val(i) > val(j)), None)
+            below = next((i for i in reversed(interior) if val(i) < val(j)), None)
+            if above is not None:
+                call(above, 'setup'); call(j, 'after-lookup-in-segment-above')
+            if below is not None:
+                call(below, 'setup'); call(j, 'after-lookup-in-segment-below')
+            call(rng.choice(other), 'setup'); call(j, 'after-lookup-in-another-table')
+            if errs:
+                call(rng.choice(errs), 'setup'); call(j, 'after-erroring-lookup')
+            call(j, 'repeated')
+        for j in sorted((j for j in own if val(j) == val(j)), key=val, reverse=True):
+            call(j, 'descending')
+        for _ in range(2):
+            sh = list(own)
+            rng.shuffle(sh)
+            for j in sh:
+                call(j, 'shuffled')
+        out.append(dict(items=[('PIECEWISE', j) for j in items], order=order, ctx=ctx))
+    # random tables and FindRoot solves, interleaved, shuffled, every call several times
+    rpool = [i for i, cs in enumerate(rcases) if cs['valid'] and cs['f'].exact and (cs['d'] is None or cs['d'].exact) and
+             all(math.isfinite(v) for v in (cs['tol'], cs['conv'], cs['a'], cs['b'])) and cs['tag'] != 'nan-function']
+    for _ in range(3 if quick else 30):
+        items = [('ROOT', i) for i in rng.sample(rpool, min(len(rpool), 30))] + [('PIECEWISE', j) for j in rng.sample(rnd_pw, min(len(rnd_pw), 50))]
+        order, ctx = [], []
+        for _r in range(3):
+            sh = list(range(len(items)))
+            rng.shuffle(sh)
+            order += sh
+            ctx += ['shuffled-among-other-solves-and-lookups'] * len(sh)
+        out.append(dict(items=items, order=order, ctx=ctx))
+    for sc in out:
+        sc['lines'] = [rlines[i] if kind == 'ROOT' else plines[i] for (kind, i) in sc['items']]
+        sc['line'] = 'SEQ %d %s ORDER %d %s' % (len(sc['items']), ' '.join(sc['lines']), len(sc['order']), ' '.join(str(k) for k in sc['order']))
+    return out
+
+
+def gen_pwops(rng, count):
+    """long-lived table objects, looked up and CHANGED IN PLACE between lookups (single knots and whole tables, xs and ys,
+    through the table object and through the array it is a view of, growing and shrinking values).
+    -> list of dict(line, lookups=[dict(op index, table snapshot xs ys, q, fresh PIECEWISE line, what changed before)])"""
+    out = []
+    for _ in range(count):
+        nt = rng.choice([1, 1, 2])
+        tabs, heads = [], []
+        for _t in range(nt):
+            k = rng.randint(2, 10)
+            xs = [dyadic(rng, -20, 20, 3)]
+            for _i in range(k - 1):
+                xs.append(xs[-1] + rng.choice([dyadic(rng, 0.25, 8, 3), rng.uniform(0.01, 50.0)]))
+            ys = [rng.choice([dyadic(rng, -20, 20, 3), rng.uniform(-1e3, 1e3)]) for _i in range(k)]
+            xl, yl = gen_layout(rng, k), gen_layout(rng, k)
+            tabs.append(dict(xs=xs, ys=ys, xl=xl, yl=yl))
+            heads.append('%s %s %d %s %s' % (xl, yl, k, ' '.join(f2h(v) for v in xs), ' '.join(f2h(v) for v in ys)))
+        ops, lookups = [], []
+        changed = 'nothing yet'
+
+        def look(t, q):
+            tb = tabs[t]
+            ops.append('L %d %s' % (t, f2h(q)))
+            cs = dict(xs=list(tb['xs']), ys=list(tb['ys']), q=q, kind='inside')
+            lookups.append(dict(op=len(ops) - 1, table=t, cs=cs, fresh=pw_line(cs), after=changed, x_layout=tb['xl'], y_layout=tb['yl']))
+
+        def inside(tb):
+            i = rng.randrange(len(tb['xs']) - 1)
+            return rng.choice([tb['xs'][i] + (tb['xs'][i + 1] - tb['xs'][i]) * rng.choice([0.5, rng.random()]), tb['xs'][i + 1], tb['xs'][i]])
+        for _r in range(rng.randint(3, 7)):
+            t = rng.randrange(nt)
+            tb = tabs[t]
+            k = len(tb['xs'])
+            q = inside(tb)
+            look(t, q)
+            if rng.random() < 0.3:
+                look(t, q)
+            # change the table in place
+            which = rng.choice(['X', 'X', 'X', 'Y'])
+            arr = tb['xs'] if which == 'X' else tb['ys']
+            lay = tb['xl'] if which == 'X' else tb['yl']
+            mode = rng.choice(['knot', 'knot', 'whole', 'whole'])
+            via = rng.choice(['object', 'parent'])
+            if lay.startswith('COL ') and lay.endswith(' 0'):
+                via = 'object'          # a reshaped column may be a copy (Reshape of a non-contiguous view): the block is not its parent
+            if mode == 'knot':
+                i = rng.randrange(k)
+                if which == 'X':
+                    lo = arr[i - 1] if i > 0 else arr[i] - 10.0
+                    hi = arr[i + 1] if i + 1 < k else arr[i] + 10.0
+                    v = lo + (hi - lo) * rng.choice([0.25, 0.5, 0.75, rng.uniform(0.05, 0.95)])
+                    if not (lo < v < hi):
+                        v = arr[i]
+                else:
+                    v = arr[i] * rng.choice([2.0, 0.5, -1.0]) + rng.choice([0.0, 1.0])
+                arr[i] = v
+                ops.append('%s%s %d %d %s' % ('S' if via == 'object' else 'B', which, t, i, f2h(v)))
+                changed = '%ss[%d] set through the %s' % (which.lower(), i, 'table object' if via == 'object' else 'array the table is a view of')
+            else:
+                if which == 'X':
+                    sc, sh = rng.choice([1.0, 2.0, 0.5, 1.0]), rng.choice([dyadic(rng, -4, 4, 3), 0.0, rng.uniform(-30, 30)])
+                    new = [x * sc + sh for x in arr]
+                    if any(not (new[i] < new[i + 1]) for i in range(k - 1)):
+                        new = list(arr)
+                else:
+                    new = [rng.uniform(-1e3, 1e3) for _i in range(k)]
+                arr[:] = new
+                code = rng.choice(['W', 'C']) if via == 'object' else 'P'
+                if code == 'C' and lay != 'P':
+                    code = 'W'
+                ops.append('%s%s %d %s' % (code, which, t, ' '.join(f2h(v) for v in new)))
+                changed = 'all %ss rewritten through the %s' % (which.lower(), {'W': 'table object', 'C': 'table object (CopyFrom)', 'P': 'array the table is a view of'}[code])
+            look(t, q)                                     # the same argument again
+            look(t, inside(tb))
+            if rng.random() < 0.4:
+                look(t, rng.choice([tb['xs'][0] - 1.0, tb['xs'][-1] + 1.0, NAN, q]))
+            if nt > 1 and rng.random() < 0.5:
+                look(1 - t, inside(tabs[1 - t]))
+        out.append(dict(line='PWOPS T %d %s OPS %d %s' % (nt, ' '.join(heads), len(ops), ' '.join(ops)), lookups=lookups))
+    return out
+
+
 def gen_par_cases(rng, count, rcases, pcases):
     """-> list of dict(g, reps, seed, items=[(kind, case, line)]) drawn from the single-call streams"""
     rpool = [cs for cs in rcases if cs['valid'] and cs['f'].exact and (cs['d'] is None or cs['d'].exact) and cs['n'] >= 2 and
@@ -722,6 +927,8 @@ def fn_from(d):
     if d is None:
         return None
     d = dict(d)
+    if d.get('kind') == 'DIV':
+        d['num'], d['den'] = fn_from(d['num']), fn_from(d['den'])
     return Fn(d.pop('kind'), **d)
 
 
@@ -750,6 +957,31 @@ def replay(path):
                   for l in obj['levels']]
         acts = parse_nest(li)
         fails = nest_oracle(levels, acts) if acts is not None else []
+    elif line.startswith('PWOPS'):
+        outs = li.split(' | ')[1:]
+        nl = sum(1 for tk in line.split(' OPS ')[1].split()[1:] if tk == 'L')
+        ops = line.split(' OPS ')[1].split()[1:]
+        # index of the recorded lookup among the L ops
+        widths = {'L': 3, 'S': 4, 'B': 4}
+        fresh = run_impl([obj['fresh_line']])[0]
+        lm = run_model([obj['fresh_line']])[0]
+        print('the table as it is at that lookup, in fresh arrays:', fresh, ' model:', lm)
+        print('recorded answer of lookup op %s: %s' % (obj.get('lookup_is_op'), obj.get('impl')))
+        cs = dict(xs=obj['xs_now'], ys=obj['ys_now'], q=float(obj['query']), kind='nan' if obj['query'] == 'nan' else 'inside')
+        fails = []
+        if obj.get('impl') in outs and obj.get('impl') != fresh:
+            fails.append(('lookup-does-not-see-the-table-as-it-is-now', None, 'a lookup of the script still answers %s' % obj.get('impl')))
+            fails += pw_oracle(cs, obj['impl'])
+        li = lm
+    elif line.startswith('SEQ'):
+        outs = li.split(' | ')[1:]
+        order = line.split(' ORDER ')[1].split()[1:]
+        seen, fails = {}, []
+        for p_, (k, o) in enumerate(zip(order, outs)):
+            if k in seen and seen[k] != o and len(fails) < 5:
+                fails.append(('result-depends-on-preceding-calls', None, 'call %d (item %s): %s, earlier %s' % (p_, k, o[:120], seen[k][:120])))
+            seen.setdefault(k, o)
+        lm = li          # the model is a pure function of each call; compared in the main run
     elif line.startswith('PAR'):
         r = parse_par(li)
         fails = [('concurrent-run-crashed', None, li[:300])] if r is None else \
@@ -889,6 +1121,90 @@ def main():
             c.violation('pwlay_%d_%s.json' % (i, kind), dict(rep, kind=kind, detail=detail + ' (xs stored as [%s], ys as [%s])' % (xl, yl)), key=key)
         if i % 397 == 0:
             c.sample({'table_length': len(cs['xs']), 'x_layout': xl, 'y_layout': yl, 'query': repr(cs['q']), 'result': lo}, limit=8)
+    # ---- tables changed in place between lookups: the answer is the one for the table AS IT IS NOW
+    ocs = gen_pwops(rng, 80 if quick else 1500)
+    oimpl = run_impl([oc['line'] for oc in ocs])
+    fresh = [lk['fresh'] for oc in ocs for lk in oc['lookups']]
+    fimpl, fmodel = run_impl(fresh), run_model(fresh)
+    stats.update(pwops_scripts=len(ocs), pwops_lookups=len(fresh), pwops_in_place_changes=0, pwops_stale_answers=0)
+    fi = 0
+    for oi, (oc, lo) in enumerate(zip(ocs, oimpl)):
+        stats['pwops_in_place_changes'] += sum(1 for tk in oc['line'].split(' OPS ')[1].split() if tk[:2] in
+                                               ('SX', 'SY', 'BX', 'BY', 'WX', 'WY', 'PX', 'PY', 'CX', 'CY'))
+        ok = lo.startswith('OK O ')
+        c.count(oc['line'], nontrivial=ok)
+        outs = lo.split(' | ')[1:] if ok else []
+        if not ok or len(outs) != len(oc['lookups']):
+            c.violation('pwops_%d_crash.json' % oi, {'kind': 'lookups-on-a-changing-table-crashed', 'detail': lo[:500], 'case_line': oc['line']})
+            fi += len(oc['lookups'])
+            continue
+        for lk, o in zip(oc['lookups'], outs):
+            fo, fm = fimpl[fi], fmodel[fi]
+            fi += 1
+            if fo != fm:
+                c.corr_broken.append({'case': 'piecewise (table of a PWOPS script, fresh arrays)', 'diff': 'impl=%s model=%s' % (fo, fm), 'case_line': lk['fresh']})
+            rep = {'xs_now': lk['cs']['xs'], 'ys_now': lk['cs']['ys'], 'query': repr(lk['cs']['q']), 'x_layout': lk['x_layout'], 'y_layout': lk['y_layout'],
+                   'lookup_is_op': lk['op'], 'changed_before': lk['after'], 'impl': o, 'impl_fresh_arrays_same_table': fo, 'model': fm,
+                   'fresh_line': lk['fresh'], 'case_line': oc['line']}
+            if o != fo:
+                stats['pwops_stale_answers'] += 1
+                c.violation('pwops_%d_op_%d_answer-for-an-earlier-table.json' % (oi, lk['op']), dict(
+                    rep, kind='lookup-does-not-see-the-table-as-it-is-now',
+                    detail='lookup (op %d, after: %s) answers %s; the table as it is now, in fresh arrays: %s; model: %s' % (lk['op'], lk['after'], o, fo, fm)))
+            for (kind, key, detail) in pw_oracle(lk['cs'] if lk['cs']['q'] == lk['cs']['q'] else dict(lk['cs'], kind='nan'), o):
+                c.violation('pwops_%d_op_%d_%s.json' % (oi, lk['op'], kind), dict(rep, kind=kind, detail=detail + ' (after: %s)' % lk['after']), key=key)
+        if oi % 37 == 0:
+            c.sample({'pwops_script_ops': oc['line'].split(' OPS ')[1][:200], 'lookups': len(outs)}, limit=14)
+    # ---- history independence: the answer to a call does not depend on the calls made before it
+    scs = gen_seq_cases(rng, rcases, pcases, rlines, plines, quick)
+    simpl = run_impl([sc['line'] for sc in scs])
+    stats.update(seq_cases=len(scs), seq_calls=0, seq_distinct_calls=0, seq_history_mismatches=0, seq_contexts={})
+    for si, (sc, lo) in enumerate(zip(scs, simpl)):
+        ok = lo.startswith('OK S ')
+        c.count(sc['line'], nontrivial=ok)
+        if not ok:
+            c.violation('seq_%d_crash.json' % si, {'kind': 'sequence-of-calls-crashed', 'detail': lo[:500], 'case_line': sc['line']})
+            continue
+        outs = lo.split(' | ')[1:]
+        stats['seq_calls'] += len(outs)
+        stats['seq_distinct_calls'] += len(set(sc['order']))
+        firsts = {}
+        reported = set()
+        for p_, (k, o) in enumerate(zip(sc['order'], outs)):
+            lab = sc['ctx'][p_]
+            if lab != 'setup':
+                stats['seq_contexts'][lab] = stats['seq_contexts'].get(lab, 0) + 1
+            kind, idx = sc['items'][k]
+            ref_model = model[idx] if kind == 'ROOT' else model[off + idx]
+            if k in firsts and o != firsts[k][1] and k not in reported:
+                reported.add(k)
+                stats['seq_history_mismatches'] += 1
+                prev = sc['order'][p_ - 1] if p_ else None
+                c.violation('seq_%d_call_%d_depends-on-preceding-calls.json' % (si, p_), {
+                    'kind': 'result-depends-on-preceding-calls',
+                    'detail': 'call %d of the sequence (%s) answers %s; the identical call at position %d answered %s; the pure model: %s' %
+                              (p_, lab, o[:300], firsts[k][0], firsts[k][1][:300], ref_model[:300]),
+                    'call': sc['lines'][k], 'preceding_call': sc['lines'][prev] if prev is not None else None,
+                    'minimal_case_line': None if prev is None else 'SEQ 2 %s %s ORDER 2 0 1' % (sc['lines'][prev], sc['lines'][k]),
+                    'case_line': sc['line']})
+            firsts.setdefault(k, (p_, o))
+            if o != ref_model and k not in reported:
+                reported.add(k)
+                if o == (impl[idx] if kind == 'ROOT' else impl[off + idx]):
+                    c.corr_broken.append({'case': 'call in a sequence', 'diff': 'impl=%s model=%s' % (o[:200], ref_model[:200]), 'case_line': sc['lines'][k]})
+                else:
+                    # differs from the model AND from the same call made in the single-call stream
+                    stats['seq_history_mismatches'] += 1
+                    prev = sc['order'][p_ - 1] if p_ else None
+                    c.violation('seq_%d_call_%d_depends-on-preceding-calls.json' % (si, p_), {
+                        'kind': 'result-depends-on-preceding-calls',
+                        'detail': 'call %d of the sequence (%s) answers %s; the same call in the single-call stream answered %s; the pure model: %s' %
+                                  (p_, lab, o[:300], (impl[idx] if kind == 'ROOT' else impl[off + idx])[:300], ref_model[:300]),
+                        'call': sc['lines'][k], 'preceding_call': sc['lines'][prev] if prev is not None else None,
+                        'minimal_case_line': None if prev is None else 'SEQ 2 %s %s ORDER 2 0 1' % (sc['lines'][prev], sc['lines'][k]),
+                        'case_line': sc['line']})
+        if si in (0, len(scs) - 1):
+            c.sample({'sequence_items': len(sc['items']), 'calls': len(outs), 'first_calls': [sc['ctx'][q] for q in range(min(8, len(outs)))]}, limit=12)
     # ---- re-entrancy: nested solves (1 and 2 levels of FindRoot inside the residual)
     def lvdesc(lv):
         return dict(function=lv['f'].describe(), derivative=lv['d'].describe() if lv['d'] else None,
@@ -973,7 +1289,13 @@ def main():
                      'the ends, NaN; a quarter with a repeated knot); every case once more with xs and ys stored as callers store them (column of a '
                      '[npts+pad, nSets] block cut with the short-size Slice of the generated wrappers, reshaped column, column of a row range, '
                      'stepped column, strided and twice-stepped 1-d views; Go- and C-backed; buffers filled by position) and compared with the '
-                     'plain-array answer. Non-trivial PIECEWISE case = a value returned for a query between two knots. Re-entrancy: NEST = residuals that '
+                     'plain-array answer; tables changed in place (PWOPS): long-lived table objects in those layouts, looked up, then one knot or all knots '
+                     'of xs or ys rewritten through the table object (Set, CopyFrom) or through the array it is a view of, then looked up again '
+                     '(same argument, another argument, outside, NaN, another table): every answer must be the one for the table as it is now '
+                     '(fresh arrays, the model); history independence (SEQ): the sweep queries of every table called in one process right after a lookup in the '
+                     'segment above, in the segment below, in another table and after an erroring lookup, repeated, in descending and shuffled '
+                     'orders, and FindRoot solves and random-table lookups interleaved in shuffled orders three times each: every answer must be '
+                     'bit-identical to every other answer to the same call and to the pure model. Non-trivial PIECEWISE case = a value returned for a query between two knots. Re-entrancy: NEST = residuals that '
                      'themselves call FindRoot 1 and 2 levels deep (monotone levels on far-apart brackets, with/without derivative, some looking tables up '
                      'through Piecewise), every activation of every level compared with the model run of that activation on its own and checked against '
                      'the interval/value clauses (non-trivial = at least 4 activations); PAR = 20-30 solves and lookups of the single-call streams run '
